@@ -211,6 +211,22 @@ def chk_funnel(rng):
                     if not (1 <= len(v) <= 3 and set(v) <= set(b'abc')):
                         fails.append(rec('funnel', 'OctetString(SIZE(1..3), FROM("abc")) %r %s %r = %r violates its own '
                                                    'constraint' % (a, name, b, v)))
+    # construction from a class-level default: a value like any other
+    for dv, ok in ((10, False), (3, True), (0, False), (5, True)):
+        n += 1
+        cls = type('WithDefault', (univ.Integer,), {'defaultValue': dv, 'subtypeSpec': C.ValueRangeConstraint(1, 5)})
+        try:
+            r = cls()
+            produced = True
+        except perror.PyAsn1Error:
+            produced = False
+        if produced != ok or (produced and (not r.isValue or int(r) != dv)):
+            fails.append(rec('funnel', 'INTEGER (1..5) subclass with defaultValue = %d, constructed without a value: %s' % (
+                dv, 'yields %r' % (int(r),) if produced else 'is refused')))
+    n += 1
+    r = type('TextDefault', (univ.OctetString,), {'defaultValue': 'ab'})()
+    if not isinstance(r._value, bytes) or bytes(r) != b'ab':
+        fails.append(rec('funnel', 'OCTET STRING subclass with defaultValue = "ab" holds %r' % (r._value,)))
     # BIT STRING: every operator against a python string of '0'/'1' -- the result is the model's result when the model's
     # result satisfies SIZE, and a refusal (library error) otherwise; leading zero bits count
     for lo, hi in ((0, 8), (4, 4), (1, 12)):
